@@ -26,6 +26,10 @@ import (
 	"github.com/mdlayher/ndp"
 )
 
+// errNotPrepared indicates that a Plugin which relies on dynamic information
+// about its network interface was applied before Prepare was called.
+var errNotPrepared = errors.New("plugin has not been prepared for its network interface")
+
 // A Plugin specifies a CoreRAD plugin's configuration.
 type Plugin interface {
 	// Name is the string name of the plugin.
@@ -324,6 +328,10 @@ func (p *Prefix) Apply(ra *ndp.RouterAdvertisement) error {
 func (p *Prefix) current() ([]netip.Prefix, error) {
 	// Expand ::/N to all unique, non-link local prefixes with matching length
 	// on this interface.
+	if p.Addrs == nil {
+		return nil, errNotPrepared
+	}
+
 	addrs, err := p.Addrs()
 	if err != nil {
 		return nil, fmt.Errorf("failed to fetch IP addresses: %v", err)
@@ -403,7 +411,13 @@ func (p *Prefix) lifetimes() (valid, pref time.Duration) {
 		panic("plugin: cannot calculate deprecated Prefix lifetimes with zero epoch")
 	}
 
-	now := p.TimeNow()
+	timeNow := p.TimeNow
+	if timeNow == nil {
+		// Not prepared yet, use the real system time.
+		timeNow = time.Now
+	}
+
+	now := timeNow()
 
 	var (
 		validT = p.Epoch.Add(p.ValidLifetime)
@@ -520,6 +534,10 @@ func (r *Route) current() ([]netip.Prefix, error) {
 	//
 	// TODO(mdlayher): if we choose to accept syntax other than ::/0, we'll have
 	// to update this logic.
+	if r.Routes == nil {
+		return nil, errNotPrepared
+	}
+
 	routes, err := r.Routes()
 	if err != nil {
 		return nil, err
@@ -584,7 +602,13 @@ func (r *Route) lifetime() time.Duration {
 		panic("plugin: cannot calculate deprecated Route lifetimes with zero epoch")
 	}
 
-	now := r.TimeNow()
+	timeNow := r.TimeNow
+	if timeNow == nil {
+		// Not prepared yet, use the real system time.
+		timeNow = time.Now
+	}
+
+	now := timeNow()
 	lt := r.Epoch.Add(r.Lifetime)
 
 	if now.Equal(lt) || now.After(lt) {
@@ -680,6 +704,10 @@ func (r *RDNSS) current() (netip.Addr, error) {
 	// Expand :: to one of the IPv6 addresses on this interface. The "best"
 	// address will be chosen by comparing all addresses on the interface for
 	// desired properties.
+	if r.Addrs == nil {
+		return netip.Addr{}, errNotPrepared
+	}
+
 	addrs, err := r.Addrs()
 	if err != nil {
 		return netip.Addr{}, fmt.Errorf("failed to fetch IP addresses: %v", err)
